@@ -471,6 +471,25 @@ func genSigForks(c *ctx, emit func(ev)) {
 				}
 				// the same signature against another digest
 				emit(ev{"op": "VerifyRS", "curve": cname, "digest": B(randBytes(r, 32)), "r": B(rr.Bytes()), "rneg": false, "s": B(ss.Bytes()), "sneg": false, "valid": false, "cls": "other-digest"})
+				// after the valid triple was accepted, in one history: triples with bytes moved across the boundaries between
+				// digest, r and s (the same concatenation, other values) and with zero bytes added or dropped at the ends
+				if len(d) > 0 {
+					rb, sb := rr.Bytes(), ss.Bytes()
+					vr := func(dg, rv, sv []byte, valid bool, cls string) ev {
+						return ev{"op": "VerifyRS", "curve": cname, "digest": B(dg), "r": B(rv), "rneg": false, "s": B(sv), "sneg": false, "valid": valid, "cls": cls}
+					}
+					cat := func(a []byte, b ...byte) []byte { return append(append([]byte{}, a...), b...) }
+					steps := []any{vr(d, rb, sb, true, "seq/valid"),
+						vr(cat(d, rb[0]), rb[1:], sb, false, "seq/digest+r0"),
+						vr(d[:len(d)-1], cat(d[len(d)-1:], rb...), sb, false, "seq/r+dlast"),
+						vr(d, rb[:len(rb)-1], cat(rb[len(rb)-1:], sb...), false, "seq/s+rlast"),
+						vr(d, cat(rb, sb[0]), sb[1:], false, "seq/r+s0"),
+						vr(d, sb, rb, false, "seq/swapped"),
+						vr(cat(d, 0), rb, sb, false, "seq/digest+0"),
+						vr(cat([]byte{0}, d...), rb, sb, len(d) < (N.BitLen()+7)/8, "seq/0+digest"),
+						vr(d, rb, sb, true, "seq/valid-again")}
+					emit(ev{"op": "EdSeq", "steps": steps})
+				}
 				// ASN.1
 				der := derSig(rr, ss)
 				emit(ev{"op": "VerifyASN1", "curve": cname, "digest": B(d), "sig": B(der), "valid": true})
